@@ -181,6 +181,8 @@ class ServeMultiPeriodManifest(RequestHandlerBase):
                 return flask.make_response(
                     f'timing_reference of period {html.escape(period.pid)} ' +
                     'has not been configured', 404)
+        # MPD patches are only available for single period streams
+        options.update(patch=False)
         options.remove_unused_parameters(mode)
         dash = ManifestContext(
             manifest=current_manifest, options=options, stream=None,
